@@ -74,11 +74,17 @@ def render_paths(N, nodes, limit: int = 512, for_zero: bool = False, subst=None,
                     have = set(p.conds)
                     return not any((e, not pol) in have for e, pol in extra)
 
+                def cond(test, pol):
+                    # `not c` taken == `c` not taken: one spelling per condition, so that equivalent templates give equal paths
+                    while isinstance(test, N.Not):
+                        test, pol = test.node, not pol
+                    return (xs(test), pol)
+
                 for test, body in branches:
-                    extra = neg + ((xs(test), True),)
+                    extra = neg + (cond(test, True),)
                     pre = [TPath(p.parts, p.conds + extra, p.ph) for p in paths if feasible(p, extra)]
                     out.extend(run(body, pre))
-                    neg = neg + ((xs(test), False),)
+                    neg = neg + (cond(test, False),)
                 pre = [TPath(p.parts, p.conds + neg, p.ph) for p in paths if feasible(p, neg)]
                 out.extend(run(node.else_, pre) if node.else_ else pre)
                 paths = out
